@@ -23,22 +23,25 @@ MemForms == { B(1, "Mi"), B(128, "Mi"), B(1, "Gi"), B(16, "Gi"), Bh(1, "Gi"), Bh
               B(2047, "Ki"), B(2097152, ""), B(1500, "k"), Bh(2, "M"), B(16384, "Mi"), B(17, "Gi"), B(1000, "Ki") }
 StorageForms == { B(5, "Mi"), B(1, "Ti"), B(1, "T"), B(100, "Gi"), Bh(512, "Mi"), B(1000, "Mi"), B(10, "G"),
                   B(5242880, ""), Bh(0, "Ti"), B(4, "Mi"), B(1025, "Gi") }
+BaseQuants(tag) ==
+  CASE tag = "QLarge" -> {QLarge} [] tag = "QSmall" -> {QSmall} [] tag = "QOdd" -> {QOdd} [] tag = "QLargeOdd" -> {QLarge, QOdd}
+
 \* n.t <decimal suffix> for n in ns, t in 1..9
 DecForms(sfx, ns) == { Bt(n, t, sfx) : n \in ns, t \in 1..9 }
 QuantsVarying(cpus, mems, stors) ==
-       { Q(c, "", B(128, "Mi"), B(1, "Gi"), <<>>) : c \in cpus }
-  \cup { Q(CpuM(100), "", m, B(1, "Gi"), <<>>) : m \in mems }
-  \cup { Q(CpuM(100), "", B(128, "Mi"), s, <<>>) : s \in stors }
-  \cup { Q(CpuM(250), "amd64", B(128, "Mi"), B(1, "Gi"), << <<"class", "ssd">> >>),
-         Q(CpuM(250), "", B(128, "Mi"), B(1, "Gi"), << <<"class", "ssd">> >>),
-         Q(CpuM(250), "amd64", B(128, "Mi"), B(1, "Gi"), <<>>) }
+  UNION { { Q(c, "", B(128, "Mi"), B(1, "Gi"), <<>>) : c \in cpus },
+          { Q(CpuM(100), "", m, B(1, "Gi"), <<>>) : m \in mems },
+          { Q(CpuM(100), "", B(128, "Mi"), s, <<>>) : s \in stors },
+          { Q(CpuM(250), "amd64", B(128, "Mi"), B(1, "Gi"), << <<"class", "ssd">> >>),
+            Q(CpuM(250), "", B(128, "Mi"), B(1, "Gi"), << <<"class", "ssd">> >>),
+            Q(CpuM(250), "amd64", B(128, "Mi"), B(1, "Gi"), <<>>) } }
 
 Sl(svcs, profs, places, body, expk, counts, quants) ==
   [svcs |-> svcs, profs |-> profs, places |-> places, body |-> body, expk |-> expk, counts |-> counts, quants |-> quants]
 
-UnitsSlice(cpus, mems, stors) ==
+UnitsSlice ==
   Sl(<<"web">>, <<"large">>, <<"east">>, [s \in {"web"} |-> {{}}], [s \in {"web"} |-> {"http"}], {1},
-     [c \in {"large"} |-> QuantsVarying(cpus, mems, stors)])
+     [c \in {"large"} |-> "units"])
 
 \* J2: the documents TLC enumerated, one JSON object per line, written next to the spec
 ExportDocs(slices) ==
